@@ -316,28 +316,4 @@ def dec (bs : Bytes) : DRes (CVal × Bytes) := decV (bs.length + 1) bs
 
 def encode (v : CVal) : Option Bytes := if okB v then some (enc v) else none
 
-/-- `codec.Decode(&v)` with `v []any`: array → items; null → empty; OBJECT → keys and values
-    interleaved (keys as strings); anything else is the codec's "expect map/array" error. -/
-def decTop (bs : Bytes) : DRes (List CVal) :=
-  match skipWs bs with
-  | [] => .error .malformed
-  | b :: r =>
-    if b.toNat = 0x5b then
-      match dec (b :: r) with
-      | .ok (.list l, _) => .ok l
-      | .ok _ => .error .malformed
-      | .error e => .error e
-    else if b.toNat = 0x7b then
-      -- the codec reads the members one after the other without map semantics and without
-      -- insisting on string keys (`{1:"a"}` gives [1, "a"]): only well-formed objects with
-      -- distinct string keys are modelled
-      match dec (b :: r) with
-      | .ok (.dict d, _) => .ok (d.foldr (fun kv acc => .str kv.1 :: kv.2 :: acc) [])
-      | _ => .error .unsupported
-    else if b.toNat = 0x6e then
-      match lit [0x75, 0x6c, 0x6c] .null r with
-      | .ok _ => .ok []
-      | .error e => .error e
-    else .error .malformed
-
 end Nexus.Codec.Json
